@@ -427,30 +427,8 @@ func (sc *specCtx) binary(e *CBin) Val {
 			return &Term{"(div " + x.S + " " + pow2big(int(n.Int64())).String() + ")", "Int", rt}
 		}
 		return &Term{"(div " + x.S + " (pow2 " + y.S + "))", "Int", rt}
-	case "&":
-		if n, ok := vc.litVal(y.S); ok {
-			return &Term{vc.andConst(x, n, rt), "Int", rt}
-		}
-		if isU8(x.T) && isU8(y.T) {
-			return &Term{"(band8 " + x.S + " " + y.S + ")", "Int", rt}
-		}
-		return &Term{"(bandS " + x.S + " " + y.S + ")", "Int", rt}
-	case "|":
-		if s, ok := vc.bitConst(x, y, 64, true, func(v, p string) string { return "(ite (= (bitk " + v + " " + p + ") 0) " + p + " 0)" }); ok {
-			return &Term{s, "Int", rt}
-		}
-		if isU8(x.T) && isU8(y.T) {
-			return &Term{"(bor8 " + x.S + " " + y.S + ")", "Int", rt}
-		}
-		return &Term{"(borS " + x.S + " " + y.S + ")", "Int", rt}
-	case "^":
-		if s, ok := vc.bitConst(x, y, 64, true, func(v, p string) string { return "(ite (= (bitk " + v + " " + p + ") 0) " + p + " (- " + p + "))" }); ok {
-			return &Term{s, "Int", rt}
-		}
-		if isU8(x.T) && isU8(y.T) {
-			return &Term{"(bxor8 " + x.S + " " + y.S + ")", "Int", rt}
-		}
-		return &Term{"(bxorS " + x.S + " " + y.S + ")", "Int", rt}
+	case "&", "|", "^":
+		return sc.intBitOp(e.Op, x, y, rt)
 	}
 	unsup("spec: operator %s", e.Op)
 	return nil
@@ -1102,4 +1080,58 @@ func (sc *specCtx) call(e *CCall) Val {
 	}
 	unsup("spec: unknown function %s", e.F)
 	return nil
+}
+
+// intBitOp: bit operations on mathematical integers (int mode). An operand that
+// is a choice between two literals (xor := 0 / 0xff) is decided per alternative.
+func (sc *specCtx) intBitOp(op string, x, y *Term, rt types.Type) *Term {
+	vc := sc.vc
+	for k, o := range []*Term{y, x} {
+		il, ok := vc.iteLit[o.S]
+		if !ok {
+			continue
+		}
+		alt := func(lit string) *Term {
+			l := &Term{lit, o.Sort, o.T}
+			if k == 0 {
+				return sc.intBitOp(op, x, l, rt)
+			}
+			return sc.intBitOp(op, l, y, rt)
+		}
+		a, b := alt(il[1]), alt(il[2])
+		return &Term{ite(il[0], a.S, b.S), "Int", rt}
+	}
+	switch op {
+	case "&":
+		if n, ok := vc.litVal(y.S); ok {
+			return &Term{vc.andConst(x, n, rt), "Int", rt}
+		}
+		if isU8(x.T) && isU8(y.T) {
+			return &Term{"(band8 " + x.S + " " + y.S + ")", "Int", rt}
+		}
+		return &Term{"(bandS " + x.S + " " + y.S + ")", "Int", rt}
+	case "|":
+		if s, ok := vc.bitConst(x, y, 64, true, func(v, p string) string { return "(ite (= (bitk " + v + " " + p + ") 0) " + p + " 0)" }); ok {
+			return &Term{s, "Int", rt}
+		}
+		if isU8(x.T) && isU8(y.T) {
+			return &Term{"(bor8 " + x.S + " " + y.S + ")", "Int", rt}
+		}
+		return &Term{"(borS " + x.S + " " + y.S + ")", "Int", rt}
+	case "^":
+		// x ^ 0xff on bytes is the complement
+		for _, pr := range [][2]*Term{{x, y}, {y, x}} {
+			if n, ok := vc.litVal(pr[1].S); ok && n.Cmp(big.NewInt(255)) == 0 && isU8(pr[0].T) {
+				return &Term{"(- 255 " + pr[0].S + ")", "Int", rt}
+			}
+		}
+		if s, ok := vc.bitConst(x, y, 64, true, func(v, p string) string { return "(ite (= (bitk " + v + " " + p + ") 0) " + p + " (- " + p + "))" }); ok {
+			return &Term{s, "Int", rt}
+		}
+		if isU8(x.T) && isU8(y.T) {
+			return &Term{"(bxor8 " + x.S + " " + y.S + ")", "Int", rt}
+		}
+		return &Term{"(bxorS " + x.S + " " + y.S + ")", "Int", rt}
+	}
+	panic("intBitOp: " + op)
 }
